@@ -463,7 +463,8 @@ def check_C16(tier, seed, t0):
 
 def check_C17(tier, seed, t0):
     own = ["LobFinite", "ReturnsKEigenvalues", "EigenvectorsShapeNbyK", "ResidualsShapeNbyK", "EigenvaluesAscending", "SmallestEigenvalues", "BOrthonormal",
-           "ResidualsAreAXminusBXL", "ResidualNormsBelowTol", "LobpcgThrew", "UnknownRow"]
+           "ResidualsAreAXminusBXL", "ResidualNormsBelowTol", "LobpcgThrew", "UnknownRow", "LobIterConsecutive", "LobActiveBlockShrinks",
+           "LobRayleighRitzOrder", "LobCoefficientShape"]
     return aux_flow("C17", tier, seed, t0, "lobpcg", n_of(tier, 30, 150), own, [("LOBPCG.tla", "LOBPCG.cfg", 4)], [("LOBPCG.tla", "LOBPCG_neg.cfg", 2)], [
         "design model: shape algebra for all n <= 14, 5k < n, block-size sequences (negative control: eigenvectors() returning the Ritz coefficient matrix)",
         "runs: sparse symmetric (also indefinite) A, tridiagonal SPD B, with/without B and a diagonal preconditioner, k in 2..3; clauses are judged only when info() reports success",
